@@ -15,7 +15,7 @@ Ltac Zify.zify_post_hook ::= Z.div_mod_to_equations.
 
 Lemma cread_app n a b : length a = n -> cread n (a ++ b) = Ok (a, b).
 Proof.
-  intros H. unfold cread. rewrite app_length, H.
+  intros H. rewrite cread_unfold. rewrite app_length, H.
   destruct (Nat.ltb (n + length b) n) eqn:E; [apply Nat.ltb_lt in E; lia|].
   rewrite firstn_app_exact, skipn_app_exact by exact H. reflexivity.
 Qed.
@@ -980,7 +980,7 @@ Section ZArrays.
 End ZArrays.
 
 Lemma zread_bytes_empty r : zread_bytes (p_i32 0 ++ r) = Ok ([], r).
-Proof. unfold zread_bytes. rewrite zread_i32_print by (unfold in_i32; lia). reflexivity. Qed.
+Proof. rewrite zread_bytes_unfold. rewrite zread_i32_print by (unfold in_i32; lia). reflexivity. Qed.
 
 (* the forced hypothesis: decoding depth at least 1 (depth 0 is the model's EOutOfFuel) *)
 Lemma from_slice_nil cz d validate req : from_slice cz (S d) validate req [] = Ok [].
